@@ -20,6 +20,11 @@ type AW struct {
 	replayed  int
 	classes   map[string]int
 	delivered map[string]int // text -> times returned (per receiver prefix)
+
+	posts    map[int]PostState // by call sequence number: the party's reported state after that call
+	pres     map[int]PostState // by call sequence number: the party's reported state before that call
+	prevPost [2]PostState      // the party's reported state before the call being observed
+	curPost  [2]PostState
 }
 
 func awConfig(rc *RunCtx) {
@@ -54,8 +59,13 @@ func awConfig(rc *RunCtx) {
 
 func newAW(rc *RunCtx) (*AW, *Violation) {
 	w := rc.NewWorld(rc.Parties)
-	aw := &AW{rc: rc, w: w, o: NewOmni(w), classes: map[string]int{}, delivered: map[string]int{}}
+	aw := &AW{rc: rc, w: w, o: NewOmni(w), classes: map[string]int{}, delivered: map[string]int{}, posts: map[int]PostState{}, pres: map[int]PostState{}}
 	w.Observers = append(w.Observers, func(p *Party, r *CallResult) {
+		aw.posts[r.Seq] = r.Post
+		if p.Idx < 2 {
+			aw.pres[r.Seq] = aw.curPost[p.Idx]
+			aw.prevPost[p.Idx], aw.curPost[p.Idx] = aw.curPost[p.Idx], r.Post
+		}
 		if r.HasEvent("smp", "AskForSecret") || r.HasEvent("smp", "AskForAnswer") {
 			aw.ask[p.Idx] = true
 		}
